@@ -403,7 +403,7 @@ func runFault(fr faultRunner, f fault, seed int64) faultResult {
 	net.Rng = rand.New(rand.NewSource(seed))
 	rng := rand.New(rand.NewSource(seed * 31))
 	res := faultResult{Fault: f, Culprits: map[string][]string{}, ErrText: map[string]string{}}
-	seen := map[string][]byte{} // last wire per "type/sender/recipient-independent"
+	seen := map[string][]byte{}    // last wire per "type/sender/recipient-independent"
 	altered := map[string][]byte{} // original wire -> altered wire: every copy of one broadcast is altered identically (no equivocation)
 	injected := false
 	net.Tamper = func(c *sched.Copy) {
